@@ -71,13 +71,15 @@ func sameTypeIDs(path string, a, b cadence.Value) string {
 	return ""
 }
 
-type c43Known struct{ fc5, fc10 bool }
+type c43Known struct{ fc5, fc6, fc8, fc10 bool }
 
 func TestC43(t *testing.T) {
 	rec := evid.Start(t, "C43", "rapid: fully typed random value (as C41/C42); a = jsonDecode(jsonEncode(v)), b = ccfDecode(ccfEncode(v)) with the default modes; "+
 		"EraseJSON(a) and EraseJSON(b) must be structurally equal (dictionaries as sets, since CCF stores them sorted), field order positional, and wherever the JSON side "+
-		"carries a complete type the type IDs must agree, recursively. Cases in which one codec cannot decode its own output are not judged here (they are C41/C42 violations) "+
-		"and are counted in the skipped/* classes. Non-trivial: depth >= 3 or a type value/capability/recursive type/composite. Distinct by JSON encoding.")
+		"carries a complete type the type IDs must agree, recursively. If exactly one codec cannot encode+decode a value the other one round-trips, that is a disagreement "+
+		"(violation) unless the value matches the narrow predicate of a listed known finding (FC6, FC8, FC10: excluded and counted); composites with attachment field values are the CCF "+
+		"encoder's documented refusal. Dictionary keys are drawn half of the time from pools mixing signs, encoded lengths and path domains (dict/* classes). "+
+		"Non-trivial: depth >= 3, a type value/capability/recursive type/composite, or a dictionary with >= 2 entries. Distinct by JSON encoding.")
 	var known c43Known
 	if rec.Known("FC5") {
 		known.fc5 = true
@@ -93,6 +95,18 @@ func TestC43(t *testing.T) {
 		b := ccfDecodeWith(ccfDefaultDec, ccfEncodeWith(ccfDefaultEnc, v).bytes)
 		rec.ReportKnown("FC10", a.err == nil && b.err == nil && vgen.Diff(a.value, b.value, vgen.Eq{}) != "")
 	}
+	known.fc6 = rec.Known("FC6")
+	if known.fc6 {
+		inner := cadence.NewStructType(nil, "PublicKey", nil, nil)
+		outer := cadence.NewStructType(nil, "AccountKey", []cadence.Field{{Identifier: "k", Type: inner}}, [][]cadence.Parameter{{{Identifier: "k", Type: inner}}})
+		e := jsonEncode(cadence.NewTypeValue(outer))
+		rec.ReportKnown("FC6", e.err == nil && jsonDecode(e.bytes).err != nil)
+	}
+	known.fc8 = rec.Known("FC8")
+	if known.fc8 {
+		e := ccfEncodeWith(ccfDefaultEnc, cadence.NewFunction(cadence.NewFunctionType(cadence.FunctionPurityImpure, nil, nil, cadence.VoidType)))
+		rec.ReportKnown("FC8", e.err == nil && ccfDecodeWith(ccfDefaultDec, e.bytes).err != nil)
+	}
 	eq := vgen.Eq{UnorderedDicts: true}
 	rapid.Check(t, func(rt *rapid.T) {
 		g := vgen.New(vgen.FromRapid(rt), vgen.Config{MaxDepth: 4})
@@ -106,30 +120,56 @@ func TestC43(t *testing.T) {
 			rec.Excluded("FC10")
 			return
 		}
-		nontrivial := in.Depth >= 3 || in.Kinds["Type"] || in.Kinds["Capability"] || in.RecursiveType || in.MaxFields > 0
+		if known.fc6 && fc6Matches(v) {
+			rec.Excluded("FC6")
+			return
+		}
+		if known.fc8 && (in.Kinds["Function"] || in.InlineFunctionType) {
+			rec.Excluded("FC8")
+			return
+		}
+		if in.HasExtraFieldValue {
+			// composites carrying attachments as extra field values: documented refusal of the CCF encoder
+			rec.Case(false, "attachment-field", vgen.Show(v))
+			rec.Class("outside-domain/attachment-field-refused-by-ccf-encoder")
+			return
+		}
+		nontrivial := in.Depth >= 3 || in.Kinds["Type"] || in.Kinds["Capability"] || in.RecursiveType || in.MaxFields > 0 || in.MaxDictEntries >= 2
 		je := jsonEncode(v)
 		ce := ccfEncodeWith(ccfDefaultEnc, v)
 		rec.CaseH(nontrivial, evid.Hash(string(je.bytes)))
-		if je.err != nil || je.panic != nil {
-			rec.Class("skipped/json-encode-failed")
-			return
+		classes(rec, "", in)
+		// Each codec must get through encode + decode of its own output. If exactly one of them
+		// cannot, the two codecs do not "decode to the same value": a disagreement (the listed
+		// known findings were excluded above by their predicates). If both fail, nothing can be
+		// compared here; that is C41's / C42's violation.
+		var a, b outcome
+		jsonOK := je.err == nil && je.panic == nil
+		if jsonOK {
+			a = jsonDecode(je.bytes)
+			jsonOK = a.err == nil && a.panic == nil && a.value != nil
 		}
-		if ce.err != nil || ce.panic != nil {
-			rec.Class("skipped/ccf-encode-failed")
-			return
+		ccfOK := ce.err == nil && ce.panic == nil
+		if ccfOK {
+			b = ccfDecodeWith(ccfDefaultDec, ce.bytes)
+			ccfOK = b.err == nil && b.panic == nil && b.value != nil
 		}
-		a := jsonDecode(je.bytes)
-		b := ccfDecodeWith(ccfDefaultDec, ce.bytes)
-		if a.err != nil || a.panic != nil {
-			rec.Class("skipped/json-decode-failed")
-			return
+		describe := func(e, d outcome) string {
+			if e.err != nil || e.panic != nil {
+				return "Encode: " + e.String()
+			}
+			return "Decode of its own encoding: " + d.String()
 		}
-		if b.err != nil || b.panic != nil {
-			rec.Class("skipped/ccf-decode-failed")
+		switch {
+		case !jsonOK && !ccfOK:
+			rec.Class("both-codecs-failed")
 			return
+		case !jsonOK:
+			rt.Fatalf("C43: CCF round-trips the value but JSON-CDC fails (%s)\nvalue: %s\njson: %s\nccf: %x", describe(je, a), vgen.Show(v), je.bytes, ce.bytes)
+		case !ccfOK:
+			rt.Fatalf("C43: JSON-CDC round-trips the value but CCF fails (%s)\nvalue: %s\njson: %s\nccf: %x", describe(ce, b), vgen.Show(v), je.bytes, ce.bytes)
 		}
 		rec.Class("compared")
-		classes(rec, "", in)
 		if nontrivial && rec.WantSample("compared") {
 			rec.Sample("compared", map[string]any{"value": vgen.Show(v), "json": string(je.bytes), "ccf_hex": fmt.Sprintf("%x", ce.bytes)})
 		}
@@ -147,15 +187,12 @@ func TestC43(t *testing.T) {
 		}
 	})
 	if evid.ReplayFile() == "" {
-		rec.RequireClasses(t, "compared", "value/Type", "value/Capability", "value/Dictionary", "value/Struct", "value/Enum", "value/InclusiveRange")
-		cmp := rec.ClassCount("compared")
-		var skipped int64
-		for _, c := range []string{"skipped/json-encode-failed", "skipped/ccf-encode-failed", "skipped/json-decode-failed", "skipped/ccf-decode-failed"} {
-			skipped += rec.ClassCount(c)
-		}
-		rec.Extra("compared_fraction", float64(cmp)/float64(cmp+skipped+1))
-		if cmp < 2*skipped {
-			rec.Inconclusive(t, "only %d of %d generated cases could be compared", cmp, cmp+skipped)
+		rec.RequireClasses(t, "compared", "value/Type", "value/Capability", "value/Dictionary", "value/Struct", "value/Enum", "value/InclusiveRange",
+			"dict/keys-mixed-sign", "dict/keys-mixed-encoded-length", "dict/path-keys-mixed-domain")
+		cmp, both := rec.ClassCount("compared"), rec.ClassCount("both-codecs-failed")
+		rec.Extra("compared_fraction", float64(cmp)/float64(cmp+both+1))
+		if cmp < 10*both {
+			rec.Inconclusive(t, "only %d of %d generated cases could be compared", cmp, cmp+both)
 		}
 	}
 }
